@@ -83,7 +83,7 @@ impl Property for C02 {
         "C02"
     }
     fn rule(&self) -> &'static str {
-        "Every source string of the shared string streams (every prefix of every seed program, mutated programs, token soups, hostile UTF-8, nesting bombs) plus the bounded-exhaustive token sequences of length <= 3 over the 92-symbol alphabet in both layouts (glued layout exercises composite operators and float/dot jointness) is parsed through both entry points; a recursive walker checks root kind, root text and range, that every node's children tile it, that no token is empty and that the leaves in document order spell the input; with no lexical error both entry points must give the same tree. One evaluation = one string. Non-trivial: tree with >= 3 leaf tokens. Distinct: hash of the pre-order (kind, length) sequence of the tree."
+        "Every source string of the shared string streams (every prefix of every seed program, mutated programs, token soups, hostile UTF-8, nesting bombs) plus the bounded-exhaustive token sequences of length <= 3 over the 92-symbol alphabet in three layouts (glued layout exercises composite operators and float/dot jointness) is parsed through both entry points; a recursive walker checks root kind, root text and range, that every node's children tile it, that no token is empty and that the leaves in document order spell the input; with no lexical error both entry points must give the same tree. One evaluation = one string. Non-trivial: tree with >= 3 leaf tokens. Distinct: hash of the pre-order (kind, length) sequence of the tree."
     }
     fn streams(&self, tier: Tier, seed: u64) -> Vec<Stream> {
         let n = c01::full_alphabet().len() as u64;
@@ -125,8 +125,8 @@ impl Property for C02 {
                     seq.push(&al[(kk % n) as usize]);
                     kk /= n;
                 }
-                for glued in [false, true] {
-                    c01::render(&seq, glued, &mut s);
+                for layout in 0..c01::LAYOUTS {
+                    c01::render(&seq, layout, &mut s);
                     check_string(&s, obs);
                     count += 1;
                 }
